@@ -93,7 +93,7 @@ def assignBlockFast (b : OBlock) (m : BipR.Outs) : Option (BipR.Outs × Ranges) 
     some (BipR.place b.coinbase.txid r.1 0 m1, r.2)
 
 /-- run the blocks; unclaimed ranges are appended to the null outpoint's entry -/
-def runBlocks : List OBlock → BipR.Outs → Option BipR.Outs
+def runBlocksBip : List OBlock → BipR.Outs → Option BipR.Outs
   | [], m => some m
   | b :: rest, m =>
     match assignBlockFast b m with
@@ -101,7 +101,7 @@ def runBlocks : List OBlock → BipR.Outs → Option BipR.Outs
     | some (m1, unclaimed) =>
       let m2 := if unclaimed.isEmpty then m1
         else AL.set m1 OutPoint.null ((AL.get m1 OutPoint.null).getD [] ++ unclaimed)
-      runBlocks rest m2
+      runBlocksBip rest m2
 
 /-- the special outpoints exist as table rows for reasons that have nothing to do with sats
 (lost / unbound inscriptions): a special row without ranges is the same as no row -/
@@ -109,7 +109,7 @@ def normRows (m : BipR.Outs) : BipR.Outs :=
   (m.filter (fun (op, rs) => !(op.isSpecial && rs.isEmpty))).mergeSort (fun a b => a.1.lt b.1 || a.1 == b.1)
 
 def fifoOracle (blocks : List OBlock) (prev new : BipR.Outs) : Bool :=
-  match runBlocks blocks prev with
+  match runBlocksBip blocks prev with
   | none => false
   | some m => normRows m == normRows new
 
